@@ -4730,10 +4730,15 @@ fn name_change(original: &str) -> String {
             // Only process if the closing parenthesis is the last character
             if absolute_end_pos == first_part.len() - 1 {
                 let num_start = paren_pos + 2; // Skip " ("
-                                               // Try to parse the number between parentheses
-                if let Ok(number) = first_part[num_start..absolute_end_pos].parse::<u32>() {
+                                               // Try to parse the number between parentheses.
+                                               // If it cannot be incremented, keep the plain " (2)" suffix.
+                if let Some(next) = first_part[num_start..absolute_end_pos]
+                    .parse::<u32>()
+                    .ok()
+                    .and_then(|number| number.checked_add(1))
+                {
                     let base_name = &first_part[..paren_pos];
-                    new_name = format!("{} ({})", base_name, number + 1)
+                    new_name = format!("{} ({})", base_name, next)
                 }
             }
         }
@@ -4761,9 +4766,14 @@ fn hostname_change(original: &str) -> String {
     // check if there is already a `-<num>` suffix
     if let Some(hyphen_pos) = first_part.rfind('-') {
         // Try to parse everything after the hyphen as a number
-        if let Ok(number) = first_part[hyphen_pos + 1..].parse::<u32>() {
+        // If the number cannot be incremented, keep the plain "-2" suffix.
+        if let Some(next) = first_part[hyphen_pos + 1..]
+            .parse::<u32>()
+            .ok()
+            .and_then(|number| number.checked_add(1))
+        {
             let base_name = &first_part[..hyphen_pos];
-            new_name = format!("{}-{}", base_name, number + 1);
+            new_name = format!("{}-{}", base_name, next);
         }
     }
 
